@@ -107,9 +107,51 @@ func (f *Frame) oblige(kind, anchor, goal string, tags []string, src string) *Ob
 	if tags == nil {
 		tags = f.tags()
 	}
-	o := &Obligation{Name: f.oblName(kind, anchor), Kind: kind, Func: f.ex.topKey, Tags: tags, Prefix: len(f.ex.script), Goal: goal, Src: src}
+	grp := ""
+	var ntags []string
+	for _, t := range tags {
+		if strings.HasPrefix(t, "@") {
+			grp = t[1:]
+			for _, g := range strings.Split(grp, "+") {
+				f.ex.useGroup(g)
+			}
+		} else {
+			ntags = append(ntags, t)
+		}
+	}
+	if grp != "" {
+		tags = ntags
+	}
+	o := &Obligation{Name: f.oblName(kind, anchor), Kind: kind, Func: f.ex.topKey, Tags: tags, Prefix: len(f.ex.script), Goal: goal, Src: src, Group: grp}
 	f.ex.obls = append(f.ex.obls, o)
 	return o
+}
+
+// useGroup declares the switch constant of a proof group (once).
+func (ex *Exec) useGroup(g string) string {
+	n := "grp." + g
+	if ex.groups == nil {
+		ex.groups = map[string]bool{}
+	}
+	if !ex.groups[g] {
+		ex.groups[g] = true
+		// declared at the very beginning of the script so that every obligation prefix contains it
+		ex.script = append([]string{"(declare-const " + n + " Bool)"}, ex.script...)
+		for _, o := range ex.obls {
+			o.Prefix++
+		}
+	}
+	return n
+}
+
+// clauseGroup: the group under which an invariant is assumed (the first one of an a+b list).
+func clauseGroup(c *Clause) string {
+	for _, t := range c.Tags {
+		if strings.HasPrefix(t, "@") {
+			return strings.Split(t[1:], "+")[0]
+		}
+	}
+	return ""
 }
 
 // Value lookup ---------------------------------------------------------------
